@@ -593,7 +593,7 @@ def run(ctx):
     # relation cases
     n = ctx.count(1200)
     cases = [gen_case(rng, True) for _ in range(n)]
-    run_batch(ctx, cases, cli_every=max(1, n // 60))
+    run_batch(ctx, cases, cli_every=max(1, n // ctx.count(60)))
     # configuration-coverage cases (contexts, binary, separators, no path): model vs code only
     n2 = ctx.count(800)
     cases2 = [gen_case(rng, False) for _ in range(n2)]
